@@ -3451,7 +3451,8 @@ func (d *simpleDecDriverBytes) ReadArrayStart() (length int) {
 }
 
 func (d *simpleDecDriverBytes) uint2Len(ui uint64) int {
-	if chkOvf.Uint(ui, intBitsize) {
+
+	if ui > math.MaxInt {
 		halt.errorf("overflow integer: %v", ui)
 	}
 	return int(ui)
@@ -7220,7 +7221,8 @@ func (d *simpleDecDriverIO) ReadArrayStart() (length int) {
 }
 
 func (d *simpleDecDriverIO) uint2Len(ui uint64) int {
-	if chkOvf.Uint(ui, intBitsize) {
+
+	if ui > math.MaxInt {
 		halt.errorf("overflow integer: %v", ui)
 	}
 	return int(ui)
